@@ -31,11 +31,24 @@ func neighbourOf(rt *rapid.T, remote string) (string, bool) {
 	return netip.AddrPortFrom(n, uint16(port)).String(), true
 }
 
+// isUnauthorized: a token is configured and no Authorization line of the request equals "Bearer <token>".
+func isUnauthorized(c ipCase) bool {
+	if c.Token == "" {
+		return false
+	}
+	for _, l := range c.Req.Auth {
+		if l == "Bearer "+c.Token {
+			return false
+		}
+	}
+	return true
+}
+
 // Sequences of requests through ONE admin mux: whatever the filter remembers between requests
 // (parsed lists, verdicts) must not change the verdict of a later peer.
 func TestC10IPPolicySequences(t *testing.T) {
 	sub := lab.Sub("admin-ip-policy-sequences", "rapid: a policy as in admin-ip-policy and 2..8 requests served by ONE balancer + NewMux; each peer is drawn as in admin-ip-policy or is a NEIGHBOUR of an earlier peer of the sequence "+
-		"(one bit of its address flipped: bit 0,1,2,7,8,15,16,31,32,63,64,65 or 95 from the low end; same /64, same /24, ...), the same address on another port, or exactly the same peer again; no forged headers; peers that may be served only read (GET /v1/backends, /v1/metrics), refused peers send every kind of request; "+
+		"(one bit of its address flipped: bit 0,1,2,7,8,15,16,31,32,63,64,65 or 95 from the low end; same /64, same /24, ...), the same address on another port, or exactly the same peer again; no forged headers; with a token configured the credential varies along the sequence (exact / near-miss / absent), so that an unauthorised request follows an authorised one to the same endpoint; requests that may be served only read (GET /v1/backends, /v1/metrics), refused peers send every kind of request; "+
 		"oracle per request as in admin-ip-policy (reference policy on the TCP peer only); non-trivial = two peers of the sequence whose addresses differ but share their upper 64 bits (IPv6) or upper 24 bits (IPv4) get different verdicts")
 	sub.NontrivialFloor(0.10)
 	sub.Floor("neighbour-peer", 0.5)
@@ -54,13 +67,22 @@ func TestC10IPPolicySequences(t *testing.T) {
 			v Verdict
 		}
 		var hist []seen
-		nt, neighbours := false, false
+		nt, neighbours, unauth := false, false, false
 		var trace []string
 		for i := 0; i < n; i++ {
 			c := genIPCase(rt, pol, false)
 			c.Token = base.Token
 			if c.Token != "" {
+				// the credential varies along the sequence too: right, near-miss / wrong, absent
 				c.Req.Auth = []string{"Bearer " + c.Token}
+				switch rapid.IntRange(0, 4).Draw(rt, "credential") {
+				case 0:
+					c.Req.Auth, _ = genAuth(rt, c.Token)
+					unauth = true
+				case 1:
+					c.Req.Auth = nil
+					unauth = true
+				}
 			} else {
 				c.Req.Auth = nil
 			}
@@ -77,7 +99,7 @@ func TestC10IPPolicySequences(t *testing.T) {
 			remotes = append(remotes, c.Req.Remote)
 			// a request that may be served must not change the balancer (the oracle's "nothing changed"
 			// for later refused requests compares with the initial configuration): such peers only read
-			if v, _, _ := pol.PeerVerdict(c.Req.Remote); v != MustRefuse || !pol.Configured() {
+			if v, _, _ := pol.PeerVerdict(c.Req.Remote); (v != MustRefuse || !pol.Configured()) && !isUnauthorized(c) {
 				body := c.Req
 				c.Req = Req{Kind: "list", Method: "GET", Path: "/v1/backends"}
 				if rapid.Bool().Draw(rt, "read_metrics") {
@@ -114,6 +136,9 @@ func TestC10IPPolicySequences(t *testing.T) {
 		var labels []string
 		if neighbours {
 			labels = append(labels, "neighbour-peer")
+		}
+		if unauth {
+			labels = append(labels, "credential-varies")
 		}
 		sub.Case(map[string]any{"policy": pol, "token": base.Token, "sequence": trace}, nt, labels...)
 	})
